@@ -196,7 +196,7 @@ def refusal_returns(fn):
         if c.endswith("FromResidual::from_residual") and t["dest"]["l"] == 0:
             src = None
             for (gb, gi, g) in all_guards(fn):
-                if g.kind == "variant" and g.variant == "Break" and fn.succ(gb)[gi][0] == b:
+                if g.kind == "variant" and g.variant == "Break" and fn.land(fn.succ(gb)[gi][0]) == b:
                     x = try_inner(g.term)
                     if x is not None and x[0] == "call":
                         src = x
@@ -206,7 +206,7 @@ def refusal_returns(fn):
             # `x.map_err(|_| Error::<refusal>)?` / `x.ok_or(Error::<refusal>)?`: the error built at this exit is a refusal
             v = None
             for (gb, gi, g) in all_guards(fn):
-                if g.kind == "variant" and g.variant == "Break" and fn.succ(gb)[gi][0] == b and g.term[0] == "call" and g.term[1] and g.term[1].endswith("Try::branch"):
+                if g.kind == "variant" and g.variant == "Break" and fn.land(fn.succ(gb)[gi][0]) == b and g.term[0] == "call" and g.term[1] and g.term[1].endswith("Try::branch"):
                     v = _converted_variant(fn, g.term[2][0])
             if v in REFUSALS:
                 out.append((b, None, "?->%s" % v, src))
